@@ -27,7 +27,10 @@ sys.path.insert(0, os.path.dirname(os.path.abspath(__file__)))
 import common
 from translate import tx_tables
 from translate import tx_tpquant
+from translate import tx_supquant
 import c18_typed
+import c18_sup
+import c18_tr
 
 warnings.filterwarnings('ignore')
 
@@ -45,9 +48,12 @@ CONFIGS = [(l, c, k) for l in (True, False) for c in (True, False) for k in (Fal
 TRANSFORM_VALUES = {'time': 'exp(-t)*Heaviside(t)', 'laplace': '1/(s+1)', 'fourier': '1/(1+j*2*pi*f)',
                     'angular fourier': '1/(1+j*omega)', 'frequency response': '1/(1+j*2*pi*f)',
                     'angular frequency response': '1/(1+j*omega)', 'norm fourier': '1/(1+j*2*pi*F)',
-                    'norm angular fourier': '1/(1+j*Omega)'}
+                    'norm angular fourier': '1/(1+j*Omega)',
+                    # round 3: discrete-time family and the constant domains
+                    'discrete time': '3**(-n)*u(n)', 'Z': '3*z/(3*z-1)', 'constant': '4', 'constant time': '4',
+                    'constant frequency response': '4'}
 # transforms that integrate over the source variable and belong to the property's sentence
-PROPS = ['Lcapy/Props/C18.lean', 'Lcapy/Props/C18TP.lean']
+PROPS = ['Lcapy/Props/C18.lean', 'Lcapy/Props/C18TP.lean', 'Lcapy/Props/C18Sup.lean', 'Lcapy/Props/C18Tr.lean']
 INTEGRAL = {('time', 'laplace'), ('laplace', 'time'), ('time', 'fourier'), ('fourier', 'time'),
             ('time', 'angular fourier'), ('angular fourier', 'time')}
 
@@ -190,7 +196,15 @@ def run(chk, replay=None):
         if not os.path.exists(gen_tp) or open(gen_tp).read() != text_tp:
             with open(gen_tp, 'w') as f:
                 f.write(text_tp)
-    info['unparsed'] = info['unparsed'] + info_tp['unparsed']
+    text_sup, info_sup = tx_supquant.generate(common.REPO)
+    gen_sup = os.path.join(common.LEAN, 'Lcapy', 'Generated', 'QuantitiesSup.lean')
+    with common.LakeLock():
+        if not os.path.exists(gen_sup) or open(gen_sup).read() != text_sup:
+            with open(gen_sup, 'w') as f:
+                f.write(text_sup)
+    info['unparsed'] = info['unparsed'] + info_tp['unparsed'] + info_sup['unparsed']
+    chk.coverage['translator_superposition'] = {'flags': info_sup['flags'], 'keys': info_sup['keys'], 'kinds': info_sup['kinds'],
+                                                'mul': info_sup['muls'], 'phasor_statement_order': info_sup['phasor_order']}
     chk.coverage['translator_typed_results'] = {
         'rows': {k: len(info_tp[k]) for k in ('derived', 'entries', 'attr_derived', 'expect', 'docports', 'wraps', 'netports', 'netwraps')},
         'expectation_from': ['lean/Lcapy/Spec/TwoPort.lean (Derived.holds, equationNames)', 'lean/Lcapy/Props/C08.lean (X_attr_sound statements)'],
@@ -208,12 +222,18 @@ def run(chk, replay=None):
         'tx_tables reads _mul_mapping/_div_mapping, _default_units, domains.py, the quantity mixins and every units_scale with ast; '
         'the class attributes domain/quantity, exprmap(q, d) and the SI dimensions known to units.py come from import-time introspection of the installed lcapy',
         'SI dimensions of the eight unit symbols and of the quantities as written in Lcapy/Spec/Dim.lean (V, A, s exponent vectors)',
-        'SymPy unit arithmetic and sympy.physics.units dimension system (Units.simplify_units is modelled only up to equality of its results)']
+        'SymPy unit arithmetic and sympy.physics.units dimension system (Units.simplify_units is modelled only up to equality of its results)',
+        'tx_tpquant: regular expressions over lean/Lcapy/Spec/TwoPort.lean (Derived.holds clauses, equationNames; tied back to the Lean definition by theorem '
+        'derived_ports_match_spec) and over the theorem statements of lean/Lcapy/Props/C08.lean; ast reading of the return statements and docstrings of '
+        'lcapy/twoport.py and lcapy/netlistopsmixin.py; wrapper class names resolved to quantities by introspection of lcapy.exprclasses',
+        'the dimension rule of Lcapy/Spec/DimTP.lean (V/V, I/I -> transfer; V/I -> impedance; I/V -> admittance; wave variables have the dimension of a voltage)',
+        'tx_supquant: ast reading of classmap.py, superposition.py, superpositionvoltage.py, superpositioncurrent.py, phasor.py (statement shapes listed in its docstring)']
     # ---- 2. proofs
     broken = chk.lean(PROPS,
                       helper_files=['Lcapy/Spec/Dim.lean', 'Lcapy/Spec/DimTP.lean', 'Lcapy/Model/Quantities.lean',
                                     'Lcapy/Proofs/QuantitiesBase.lean', 'Lcapy/Generated/Quantities.lean',
-                                    'Lcapy/Generated/QuantitiesTP.lean', 'Lcapy/Driver/C18.lean'],
+                                    'Lcapy/Generated/QuantitiesTP.lean', 'Lcapy/Model/QuantitiesSup.lean',
+                                    'Lcapy/Generated/QuantitiesSup.lean', 'Lcapy/Driver/C18.lean'],
                       leanchecker=(chk.tier == 'thorough'))
     drv = chk.get_driver()
     R = Real()
@@ -231,7 +251,16 @@ def run(chk, replay=None):
         'x (loose_units, check_units, canonical_units); quick: complete pairs for * and / (value kinds that the code distinguishes), complete '
         'pairs for + and == at the default setting, seeded sample of pairs under the 7 other settings and for -; thorough: everything under '
         'all 8 settings; ** for n in {2,-1,3} on every operand; every transform row of the translated table on every quantity; '
-        'every domain change offered through the call syntax X(t), X(s), X(f), X(omega), X(jw), X(jf) and the named methods, one and two steps deep from a Laplace- and a time-domain start, for every quantity class (step rule + route independence); non-trivial = the real operator returned a result (not an error) or the spec demands a refusal; distinct by (operator, setting, operand descriptors)')
+        'every domain change offered through the call syntax X(t), X(s), X(f), X(omega), X(jw), X(jf) and the named methods, one and two steps deep from a Laplace- and a time-domain start, for every quantity class (step rule + route independence); non-trivial = the real operator returned a result (not an error) or the spec demands a refusal; distinct by (operator, setting, operand descriptors); '
+        'ROUND 3 -- typed results: (two-port object in {8 parameter-matrix classes reached by every conversion from seed matrices, every TwoPort network class '
+        'buildable from a pool of constructor recipes (quick: 10 core + 4 seeded-random, thorough: all ~55), Circuit.twoport}) x (every attribute of the regenerated '
+        'tables: 20 of the C08 table, 5 documented as a ratio, Y?oc/Y?sc, V?oc/I?sc, matrix elements X11..X22) judged by ratioOk/entryOk/signalOk and then USED '
+        '(x signal of the denominator quantity, + and == with the two other ratio quantities); (netlist in 15 netlists covering test-source route < 6 components, '
+        'ladder shortcut with 6/8 components RC/LC/RR and driven, non-ladder with 7 components, dc/ac/transient/mixed/noise sources) x (transfer, voltage_gain, '
+        'current_gain, transimpedance, transadmittance, impedance, admittance, thevenin.Z/.Y, norton.Y, oneport.Z, cpt.Z/.Y, Voc, Isc, node V, branch I/V/i/v) x '
+        '(native superposition components, time(), laplace(), phasor(), .dc, .ac, .transient, .s, .n); Superposition x operand x {+, radd, -, *, rmul, /, ==}; '
+        'phasors at omega in {3, 5, omega} x {*, /, +, -, ==}; sequences; discrete-time transforms ZT/DFT/DTFT(f,F,omega,Omega) and back; every change out of a '
+        'constant domain; (a op x)(D) == a(D) op x(D) for constants a and constant responses x')
     disagreements = []
     cex = [0]
     new_keys = set()
@@ -472,9 +501,12 @@ def run(chk, replay=None):
     else:
         allk = [k for k in operands] + list(singles)
         for cfg in CONFIGS:
+            # `-` takes the same path as `+` (__compat_add__): complete under the default and the strictest setting,
+            # sampled under the six others (round 3: makes room for the typed-result streams within the 20 min budget)
+            ops3 = ('+', '-', '==') if cfg in (CONFIGS[0], (False, True, False)) else ('+', '==')
             for ak in add_a:
                 for xk in add_a:
-                    run_add(ak, xk, cfg, ('+', '-', '=='))
+                    run_add(ak, xk, cfg, ops3)
         # zero / constant value kinds and singletons: complete at the default and the strictest setting, sampled elsewhere
         special = [k for k in allk if len(k) == 2 or k[2] in ('zero', 'const', 'par')]
         for cfg in (CONFIGS[0], (False, True, False)):
@@ -612,6 +644,30 @@ def run(chk, replay=None):
         c18_typed.circuit_outputs(ctx, quick, rng, replay_input)
     chk.coverage['timing_circuit_s'] = round(time.time() - t_sec, 1)
 
+    # ---- 3f. Superposition operators, phasors with equal / unequal angular frequency, sequences
+    t_sec = time.time()
+    if replay_input is None or replay_input.get('op') == 'superposition':
+        c18_sup.sup_stream(chk, R, ask, violation, operands, wire_domain, ustr, opd_wire, quick, rng, replay_input)
+    if replay_input is None or replay_input.get('op') == 'phasor':
+        c18_sup.phasor_stream(chk, R, ask, violation, wire_domain, ustr, opd_wire, cfg_wire, CONFIGS, quick, rng, replay_input)
+    if replay_input is None or replay_input.get('op') == 'sequence':
+        c18_sup.sequence_stream(chk, R, ask, violation, wire_domain, ustr)
+    for k in ('superposition_disagreements', 'phasor_disagreements'):
+        for dd in chk.coverage.get(k, [])[:3]:
+            if len(disagreements) < 40:
+                disagreements.append({'what': k, 'input': dd.get('input'), 'lcapy': dd.get('lcapy'), 'model': dd.get('model')})
+    chk.coverage['timing_superposition_phasor_s'] = round(time.time() - t_sec, 1)
+
+    # ---- 3g. discrete-time transforms, changes out of the constant domains, transform of a product of constants
+    t_sec = time.time()
+    if replay_input is None or replay_input.get('op') == 'discrete':
+        c18_tr.discrete_stream(chk, R, ask, violation, wire_domain, ustr, QORDER, quick, replay_input)
+    if replay_input is None or replay_input.get('op') == 'constant-change':
+        c18_tr.constant_change_stream(chk, R, ask, violation, wire_domain, ustr, QORDER, replay_input)
+    if replay_input is None or replay_input.get('op') == 'homomorphism':
+        c18_tr.homomorphism_stream(chk, R, ask, violation, wire_domain, ustr, replay_input)
+    chk.coverage['timing_discrete_constant_s'] = round(time.time() - t_sec, 1)
+
     # ---- class-default vs operator-units diagnostics (not violations by themselves)
     diag = []
     for d in domains:
@@ -645,6 +701,8 @@ def run(chk, replay=None):
     flag_finding = {'flag_div_restores_units': 'C18-F19', 'flag_pow_sets_units': 'C18-F18',
                     'flag_recip_sets_units': 'C18-F19b', 'flag_omega_needs_quantity': 'C18-F20',
                     'flag_canon_folds_hertz': 'C18-F24'}
+    # (no entry for flag_sup_add_checks_quantity, flag_phasor_omega_checked, the wrapper theorems of C18TP: a failure
+    #  there is explained only by a counterexample of this run)
     unexplained_broken = [b for b in broken if flag_finding.get(b.split(':')[-1]) not in chk.known_seen]
     chk.coverage['broken_obligations_explained_by_known_findings'] = [b for b in broken if b not in unexplained_broken]
     if unexplained_broken and cex[0] == 0:
@@ -660,10 +718,11 @@ def run(chk, replay=None):
         chk.unexplained('broken-correspondence', disagreements[0]['what'], disagreements[0])
 
 
-ROUTE_ARGS = ['t', 's', 'f', 'omega', 'jw', 'jf']
+ROUTE_ARGS = ['t', 's', 'f', 'omega', 'jw', 'jf', 'F', 'Omega']
 ROUTE_METHODS = ['time', 'laplace', 'inverse_laplace', 'fourier', 'inverse_fourier', 'angular_fourier',
                  'frequency_response', 'angular_frequency_response']
-ROUTE_DOMAINS = ('time', 'laplace', 'fourier', 'angular fourier', 'frequency response', 'angular frequency response')
+ROUTE_DOMAINS = ('time', 'laplace', 'fourier', 'angular fourier', 'frequency response', 'angular frequency response',
+                 'norm fourier', 'norm angular fourier')
 ROUTE_STARTS = {'laplace': ('1/(s+1)', {'causal': True}), 'time': ('exp(-t)*Heaviside(t)', {})}
 
 
@@ -679,7 +738,7 @@ def route_stream(chk, R, ask, violation, quick, replay_input):
     for nm in ROUTE_ARGS:
         argobj[nm] = getattr(lcapy, nm, None) or getattr(__import__('lcapy.symbols', fromlist=[nm]), nm)
     arg_domain = {'t': 'time', 's': 'laplace', 'f': 'fourier', 'omega': 'angular fourier',
-                  'jw': 'angular frequency response', 'jf': 'frequency response'}
+                  'jw': 'angular frequency response', 'jf': 'frequency response', 'F': 'norm fourier', 'Omega': 'norm angular fourier'}
     quantities = QORDER if not quick else ['impedance', 'voltage', 'admittance', 'transfer', 'current', 'power', 'undefined',
                                            'voltagesquared', 'impedancesquared']
     only = replay_input.get('quantity') if replay_input else None
@@ -755,8 +814,10 @@ def route_stream(chk, R, ask, violation, quick, replay_input):
                     inp = {'op': 'route', 'start': start, 'quantity': q, 'route': list(route), 'reference_route': list(ref_route),
                            'value': val, 'domain': dom}
                     through_response = any(h in ('jw', 'jf', 'frequency_response', 'angular_frequency_response') for h in route + ref_route)
+                    through_norm = any(h in ('F', 'Omega') for h in route + ref_route) or dom in ('norm fourier', 'norm angular fourier')
                     signal = q in ('voltage', 'current', 'voltagesquared', 'currentsquared')
-                    fam = 'signal-through-frequency-response-domain' if (signal and through_response) else 'other'
+                    fam = 'signal-through-frequency-response-domain' if (signal and through_response) else (
+                        'signal-through-normalised-frequency-domain' if (signal and through_norm) else 'other')
                     key = {'kind': 'route-independence', 'family': fam} if fam != 'other' else \
                         {'kind': 'route-independence', 'family': fam, 'domain': dom, 'quantity': q}
                     if q == 'undefined':
